@@ -29,7 +29,8 @@
     * `parseFLine_sound_resumed`, `fs_resumed_eq`, `fs_resumed_oneshot` : the same for objects resumed after any number
                                     of MoreBytes rounds (`FsResumed`), by the L2 theorem `parseFLine_resume`.
   Behaviour of the model worth knowing (tests at the end of the file; the Go source does the same):
-    * `SIP/2.0 000 x` is accepted as a reply with status 0, so `Request()` is true for it (`fline_request_iff`);
+    * `SIP/2.0 000 x` is accepted as a reply with status 0; `Request()` is false for it since the repair 07883de
+      (`fline_request_iff`, `fline_reply_iff`);
     * tokens are runs of ANY bytes other than SP / HT / CR / LF (NUL, control and 8-bit bytes included) and the version
       of a request is not compared with `SIP/2.0` — this is the grammar as stated, nothing more is checked.
   Not proved here: nothing of the task is left open; objects in an arbitrary (not reached by resuming) state are
@@ -692,27 +693,44 @@ theorem fs_status_value (o v : Nat) (d0 d1 d2 : UInt8) (h0 : isDigit d0 = true) 
   · rintro ⟨rfl, rfl, rfl⟩
     rfl
 
-/-- **request vs reply**: after an OK verdict on a new object `Request()` (status = 0) is true exactly for the request
-    lines — and for the status lines whose code is `000` (accepted by ParseFLine; see the examples below) -/
+/-- **request vs reply**: after an OK verdict on a new object `Request()` is true EXACTLY for the request lines — also
+    the status line with code `000` (status 0) is reported as a reply, because a reply always carries its three status
+    digits (`statusCode`), which `Request()` looks at since the repair 07883de of the library (before it, `Request()` was
+    `Status == 0` and answered true for `SIP/2.0 000 x`). -/
 theorem fline_request_iff (b : Buf) (o e : Nat) (st : PFLine) (hfit : b.size ≤ 65535)
     (h : parseFLine b o {} = (e, Err.ok, st)) :
-    st.request = true ↔ ((∃ m u v, FsReqLine b o m u v e) ∨ (∃ v, FsStatusLine b o v e 48 48 48)) := by
+    st.request = true ↔ (∃ m u v, FsReqLine b o m u v e) := by
   rcases parseFLine_sound b o e st hfit h with ⟨m, u, v, hg, rfl⟩ | ⟨v, d0, d1, d2, hg, rfl⟩
   · constructor
-    · intro _; exact Or.inl ⟨m, u, v, hg⟩
+    · intro _; exact ⟨m, u, v, hg⟩
     · intro _; rfl
-  · have hv := (fs_status_value o v d0 d1 d2 hg.dig0 hg.dig1 hg.dig2).2.2.2.2.2
-    constructor
+  · constructor
     · intro hr
-      have hz : (fsRplObj o v d0 d1 d2).status = 0 := by
-        unfold PFLine.request at hr
-        simpa using hr
-      obtain ⟨rfl, rfl, rfl⟩ := hv.1 hz
-      exact Or.inr ⟨v, hg⟩
-    · rintro (⟨m, u, v', hr⟩ | ⟨v', hs⟩)
-      · exact (fs_req_not_status b o m u v' e v e d0 d1 d2 hr hg).elim
-      · obtain ⟨_, _, rfl, rfl, rfl⟩ := fs_status_unique b o v e v' e d0 d1 d2 48 48 48 hg hs
-        rfl
+      have hf : (fsRplObj o v d0 d1 d2).request = false := by
+        unfold PFLine.request fsRplObj
+        simp
+      rw [hf] at hr
+      cases hr
+    · rintro ⟨m, u, v', hr⟩
+      exact (fs_req_not_status b o m u v' e v e d0 d1 d2 hr hg).elim
+
+/-- … and `Request()` is false exactly for the status lines, whatever their code (000 included) -/
+theorem fline_reply_iff (b : Buf) (o e : Nat) (st : PFLine) (hfit : b.size ≤ 65535)
+    (h : parseFLine b o {} = (e, Err.ok, st)) :
+    st.request = false ↔ (∃ v d0 d1 d2, FsStatusLine b o v e d0 d1 d2) := by
+  rcases parseFLine_sound b o e st hfit h with ⟨m, u, v, hg, rfl⟩ | ⟨v, d0, d1, d2, hg, rfl⟩
+  · constructor
+    · intro hr
+      have ht : (fsReqObj b o m u v).request = true := rfl
+      rw [ht] at hr
+      cases hr
+    · rintro ⟨v', d0, d1, d2, hs⟩
+      exact (fs_req_not_status b o m u v e v' e d0 d1 d2 hg hs).elim
+  · constructor
+    · intro _; exact ⟨v, d0, d1, d2, hg⟩
+    · intro _
+      unfold PFLine.request fsRplObj
+      simp
 
 /-- a non-zero status means a status line, and the status is the value of its digits -/
 theorem fline_reply_of_status (b : Buf) (o e : Nat) (st : PFLine) (hfit : b.size ≤ 65535)
@@ -1102,10 +1120,10 @@ example : ∃ v d0 d1 d2, FsStatusLine "SIP/2.0 200 \nXX".toUTF8.data 0 v 13 d0 
   · exact absurd hr.notVer (by decide +kernel)
   · exact hs
 
-/-- test (model behaviour worth knowing): the status line with code `000` is accepted and, the status being 0,
-    `Request()` answers true for it -/
+/-- test: the status line with code `000` is accepted with status 0 and reported as a REPLY (`Request()` false) -/
 example : (parseFLine "SIP/2.0 000 x\r\nX".toUTF8.data 0 {}).2.1 = Err.ok ∧
-    (parseFLine "SIP/2.0 000 x\r\nX".toUTF8.data 0 {}).2.2.request = true := by decide +kernel
+    (parseFLine "SIP/2.0 000 x\r\nX".toUTF8.data 0 {}).2.2.status = 0 ∧
+    (parseFLine "SIP/2.0 000 x\r\nX".toUTF8.data 0 {}).2.2.request = false := by decide +kernel
 
 /-- test (model behaviour worth knowing): "tokens" are runs of ANY bytes other than SP / HT / CR / LF — here NUL,
     0x01, 0x02 — the version is not compared with `SIP/2.0`, and a lone CR followed by any byte ends the line -/
